@@ -112,4 +112,134 @@ theorem stream_namespace_declaration_eq (s : Stream) (name iri : String)
   | error e => py_simp [swap, h1', he]
   | ok rows => py_simp [swap, h1', he, flowExtend, Stream.pushRows]
 
+/-! ## `GraphStream.graph` -/
+
+theorem frameFromBounds_kind (f : Flow) : (f.frameFromBounds).1.kind = f.kind := by
+  unfold Flow.frameFromBounds Flow.toStreamFrame
+  split <;> (try split) <;> rfl
+
+theorem stream_triple_kind (exc : PyErr) (s : Stream) (t : List Term) : (s.triple exc t).1.flow.kind = s.flow.kind := by
+  unfold Stream.triple
+  rcases encodeTriple exc s.enc t with ⟨enc', r⟩
+  cases r with
+  | error e => rfl
+  | ok rows =>
+    simp only [Stream.pushRows]
+    exact frameFromBounds_kind _
+
+/-- the loop over the triples of a graph: frames yielded before a refusal are kept -/
+theorem graph_loop_eq (enc encG : Term → M TermEnc (List Row × WTerm)) (henc : EncLike enc TermEnc.spo)
+    (exc : PyErr) (ffb : M Flow (Option Frame)) (k : FlowKind)
+    (hffb : ∀ f : Flow, f.kind = k → FlowAgrees ffb Flow.frameFromBounds f) :
+    ∀ (ts : List (List Term)) (s : Stream) (acc : List Frame), s.flow.kind = k →
+      (Gen.GraphStream.graph__loop enc encG exc ffb ts).exec (s, acc)
+        = match Stream.graphTriples exc s ts acc with
+          | (s', fr, none) => (.ok (), (s', fr))
+          | (s', fr, some e) => (.error e, (s', fr)) := by
+  intro ts
+  induction ts with
+  | nil => intro s acc _; py_simp [Gen.GraphStream.graph__loop, Stream.graphTriples]
+  | cons t ts ih =>
+    intro s acc hk
+    have h1 := stream_triple_eq enc encG henc exc ffb s (fun f hf => hffb f (hf.trans hk)) t
+    simp only [M.exec, ExceptT.run, StateT.run] at h1
+    have hkind := stream_triple_kind exc s t
+    rcases ht : s.triple exc t with ⟨s', r⟩
+    rw [ht] at h1 hkind
+    have h1' := swap_eq h1
+    have hk' : s'.flow.kind = k := by simpa using hkind.trans hk
+    have ih' := ih s'
+    simp only [M.exec, ExceptT.run, StateT.run] at ih'
+    cases r with
+    | error e => py_simp [Gen.GraphStream.graph__loop, Stream.graphTriples, onStream, h1', ht]
+    | ok fr =>
+      cases fr with
+      | none =>
+        have := ih' acc hk'
+        py_simp [Gen.GraphStream.graph__loop, Stream.graphTriples, onStream, yieldFrame, optGet, h1', ht, this]
+      | some f =>
+        have := ih' (acc ++ [f]) hk'
+        py_simp [Gen.GraphStream.graph__loop, Stream.graphTriples, onStream, yieldFrame, optGet, h1', ht, this]
+
+theorem graphTriples_kind (exc : PyErr) : ∀ (ts : List (List Term)) (s : Stream) (acc : List Frame),
+    (Stream.graphTriples exc s ts acc).1.flow.kind = s.flow.kind := by
+  intro ts
+  induction ts with
+  | nil => intro s acc; rfl
+  | cons t ts ih =>
+    intro s acc
+    unfold Stream.graphTriples
+    have hk := stream_triple_kind exc s t
+    rcases ht : s.triple exc t with ⟨s', r⟩
+    rw [ht] at hk
+    cases r with
+    | error e => simpa using hk
+    | ok fr => simp only; rw [ih s' (acc ++ fr.toList)]; simpa using hk
+
+/-- `GraphStream.graph`, consumed to exhaustion: the graph-start row after its entries, every triple through
+    `TripleStream.triple`, the graph-end row, and a frame whenever the flow's `frame_from_bounds` gives one; the frames yielded
+    before a refusal are kept. Equal to the model's `Stream.graph`, stream state and frame list included. -/
+theorem stream_graph_eq (enc encG : Term → M TermEnc (List Row × WTerm)) (henc : EncLike enc TermEnc.spo)
+    (hencG : EncLike encG TermEnc.graph) (exc : PyErr) (ffb : M Flow (Option Frame)) (s : Stream)
+    (hffb : ∀ f : Flow, f.kind = s.flow.kind → FlowAgrees ffb Flow.frameFromBounds f) (gid : Term) (triples : List (List Term)) :
+    (Gen.GraphStream.graph enc encG exc ffb gid triples).exec (s, [])
+      = match s.graph exc gid triples with
+        | (s', fr, none) => (.ok (), (s', fr))
+        | (s', fr, some e) => (.error e, (s', fr)) := by
+  unfold Gen.GraphStream.graph Stream.graph
+  obtain ⟨cls, opts, ⟨te, rep⟩, ⟨fk, fl, fs, fr⟩, enr, lt⟩ := s
+  have hb' := start_row_app te
+  cases hb : te.beginRow with
+  | error e => rw [hb] at hb'; py_simp [onStream, hb', hb]
+  | ok te0 =>
+    rw [hb] at hb'
+    rcases hg : te0.graph gid with ⟨te', r⟩
+    cases r with
+    | error e => py_simp [onStream, hb', hb, hencG.app, hg]
+    | ok v =>
+      obtain ⟨rows, w⟩ := v
+      have hl := graph_loop_eq enc encG henc exc ffb fk hffb triples
+        (⟨cls, opts, ⟨te'.endRow, rep⟩, ⟨fk, fl, fs, fr ++ (rows ++ [Row.graphStart (some w)])⟩, enr, lt⟩ : Stream) [] rfl
+      simp only [M.exec, ExceptT.run, StateT.run] at hl
+      have hk2 := graphTriples_kind exc triples
+        (⟨cls, opts, ⟨te'.endRow, rep⟩, ⟨fk, fl, fs, fr ++ (rows ++ [Row.graphStart (some w)])⟩, enr, lt⟩ : Stream) []
+      rcases hgt : Stream.graphTriples exc
+        (⟨cls, opts, ⟨te'.endRow, rep⟩, ⟨fk, fl, fs, fr ++ (rows ++ [Row.graphStart (some w)])⟩, enr, lt⟩ : Stream) triples []
+        with ⟨s2, frames, err⟩
+      rw [hgt] at hl hk2
+      cases err with
+      | some e => py_simp [onStream, hb', hb, hencG.app, hg, end_row_app, flowExtend, Stream.pushRows, hl, hgt]
+      | none =>
+        have h2 := hffb ({ s2.flow with rows := s2.flow.rows ++ [Row.graphEnd] }) (by simpa using hk2)
+        simp only [FlowAgrees, M.exec, ExceptT.run, StateT.run] at h2
+        cases hfr : (Flow.frameFromBounds { s2.flow with rows := s2.flow.rows ++ [Row.graphEnd] }).2 with
+        | none => py_simp [onStream, yieldFrame, optGet, hb', hb, hencG.app, hg, end_row_app, flowExtend, Stream.pushRows, hl, hgt, h2, hfr]
+        | some f => py_simp [onStream, yieldFrame, optGet, hb', hb, hencG.app, hg, end_row_app, flowExtend, Stream.pushRows, hl, hgt, h2, hfr]
+
+/-- the dispatch resolved for the flow classes a GraphStream is given: grouped (one frame per graph is cut by the caller), flat
+    quads (the delimited default) and manual -/
+theorem stream_graph_flatQuads (enc encG : Term → M TermEnc (List Row × WTerm)) (henc : EncLike enc TermEnc.spo)
+    (hencG : EncLike encG TermEnc.graph) (exc : PyErr) (s : Stream) (hk : s.flow.kind = .flatQuads) (gid : Term) (triples : List (List Term)) :
+    (Gen.GraphStream.graph enc encG exc Gen.FlatQuadsFrameFlow.frame_from_bounds gid triples).exec (s, [])
+      = match s.graph exc gid triples with
+        | (s', fr, none) => (.ok (), (s', fr))
+        | (s', fr, some e) => (.error e, (s', fr)) :=
+  stream_graph_eq enc encG henc hencG exc _ s (fun f hf => flatQuads_frame_from_bounds f (hf.trans hk)) gid triples
+
+theorem stream_graph_graphs (enc encG : Term → M TermEnc (List Row × WTerm)) (henc : EncLike enc TermEnc.spo)
+    (hencG : EncLike encG TermEnc.graph) (exc : PyErr) (s : Stream) (hk : s.flow.kind = .graphs) (gid : Term) (triples : List (List Term)) :
+    (Gen.GraphStream.graph enc encG exc Gen.GraphsFrameFlow.frame_from_bounds gid triples).exec (s, [])
+      = match s.graph exc gid triples with
+        | (s', fr, none) => (.ok (), (s', fr))
+        | (s', fr, some e) => (.error e, (s', fr)) :=
+  stream_graph_eq enc encG henc hencG exc _ s (fun f hf => graphs_frame_from_bounds f (hf.trans hk)) gid triples
+
+theorem stream_graph_manual (enc encG : Term → M TermEnc (List Row × WTerm)) (henc : EncLike enc TermEnc.spo)
+    (hencG : EncLike encG TermEnc.graph) (exc : PyErr) (s : Stream) (hk : s.flow.kind = .manual) (gid : Term) (triples : List (List Term)) :
+    (Gen.GraphStream.graph enc encG exc Gen.ManualFrameFlow.frame_from_bounds gid triples).exec (s, [])
+      = match s.graph exc gid triples with
+        | (s', fr, none) => (.ok (), (s', fr))
+        | (s', fr, some e) => (.error e, (s', fr)) :=
+  stream_graph_eq enc encG henc hencG exc _ s (fun f hf => manual_frame_from_bounds f (hf.trans hk)) gid triples
+
 end Jelly.Translated
